@@ -244,7 +244,7 @@ pub fn run(ctx: &mut RunCtx) -> Result<(), Violation> {
     let zw = z * omega;
     let c = ProgCircuit { prog: sc.prog.clone(), tape: sc.tape.clone() };
     let snap = Composer::prove(sc.constraints, &c).map_err(|e| fail(format!("synthesis failed: {:?}", e)))?.verif_snapshot();
-    let compiled = crate::c05::snapshot_of(&sc, &crate::program::Tape::default()).map_err(|e| fail(format!("{:?}", e)))?;
+    let compiled = crate::program::snapshot_of(&sc.prog, &crate::program::Tape::default()).map_err(|e| fail(format!("{:?}", e)))?;
     let rows = snap.wires.len();
     let col = |wire: usize| -> Vec<Fr> {
         let mut v = vec![Fr::zero(); n];
